@@ -581,10 +581,57 @@ pub fn run(cfg: &RunCfg) -> CheckReport {
             return rep;
         }
     }
+    // large line texts (one family item per line; every other input loses its final newline)
+    let inputs: Vec<_> = super::large::all(cfg.tier, cfg.seed)
+        .into_iter()
+        .filter(|i| i.old.len().max(i.new.len()) <= 300)
+        .collect();
+    let ex = explore(cfg, inputs.len(), |shard, acc| {
+        let inp = &inputs[shard];
+        match large_verdict(inp) {
+            Verdict::Ok(nt, n, fp) => {
+                if shard % 97 == 0 {
+                    acc.sample(super::large::case_json(Algorithm::Myers, inp, cfg.seed));
+                }
+                acc.ok(nt, n, fp)
+            }
+            Verdict::Kf1(e) if kf1_listed => acc.known("KF1", || format!("{}: {}", inp.name, e)),
+            Verdict::Kf1(e) | Verdict::Fail(e) => acc.violation(|| {
+                (
+                    super::large::case_json(Algorithm::Myers, inp, cfg.seed),
+                    format!("{}: {}", inp.name, e),
+                )
+            }),
+        }
+    });
+    rep.part("large-families", super::large::describe(cfg.tier), ex);
     rep
 }
 
+/// large line texts (one family item per line); all three algorithms are exercised inside
+/// check_pair, so this runs once per input
+pub fn check_large(_alg: Algorithm, inp: &super::large::LargeInput) -> Result<(bool, u64, u64), String> {
+    match large_verdict(inp) {
+        Verdict::Ok(nt, n, fp) => Ok((nt, n, fp)),
+        Verdict::Kf1(e) => super::cap::kf1_or_violation("C05", e).map(|_| (true, 0, 0x4b46)),
+        Verdict::Fail(e) => Err(e),
+    }
+}
+
+fn large_verdict(inp: &super::large::LargeInput) -> Verdict {
+    let old: Vec<u8> = inp.old.iter().flat_map(|x| format!("{}\n", x).into_bytes()).collect();
+    let mut new: Vec<u8> = inp.new.iter().flat_map(|x| format!("{}\n", x).into_bytes()).collect();
+    if inp.name.len() % 2 == 0 && !new.is_empty() {
+        new.pop();
+    }
+    check_pair(&old, &new, &[0, 3])
+}
+
 pub fn replay(case: &Value) -> Result<String, String> {
+    if let Some(r) = super::large::resolve(case) {
+        let (alg, inp) = r?;
+        return check_large(alg, &inp).map(|o| format!("holds; fingerprint {:x}", o.2));
+    }
     let old = parse_bytes(case, "old")?;
     let new = parse_bytes(case, "new")?;
     match check_pair(&old, &new, &RADII) {
